@@ -199,7 +199,14 @@ def run(chk):
                 'Grid objects over LayoutHandler (standard 4-D layouts and random sets) and over the driver\'s LayoutSwapper, 1-6 ranks, with/without '
                 'save memory, float/complex; thorough adds ALL histories of length <= 4 over 7 operation kinds on the standard layouts. '
                 'non-trivial = history contains a save and a layout change; distinct by (manager, grid, extents, history)')
-    chk.proof_side(build=not getattr(chk, 'no_build', False))
+    # the driver-script theorem (Props/C04Driver.lean) is about the loop REGENERATED from fullSimulation.py: run the translator first
+    import subprocess
+    tr = subprocess.run(['/venv/bin/python', str(common.VERIF / 'harness' / 'translate_driver.py'), '--repo', str(common.REPO)],
+                        capture_output=True, text=True)
+    if tr.returncode != 0:
+        chk.proof_broken.append({'theorem': 'translator (harness/translate_driver.py) refused the source of the time loop',
+                                 'log': (tr.stdout + tr.stderr)[-800:]})
+    chk.proof_side(build=not getattr(chk, 'no_build', False), extra_props=('C04Driver',))
     drv = common.LeanDriver('C04.lean')
     try:
         if chk.replay:
@@ -227,4 +234,21 @@ def run(chk):
     finally:
         drv.close()
     chk.assumptions = ['the layout manager honours the transpose contract of C01/C03 (destination receives the field; source intact only with a spare buffer)']
-    return chk.finish()
+
+    def search():
+        """a broken proof obligation about the generated time loop: run the real driver for two steps and see whether a grid
+        operation is refused (AssertionError from save/restore/free) or the run differs from the single-array semantics"""
+        import os, shutil, tempfile
+        import driver_util as du
+        work = tempfile.mkdtemp(prefix='pgc04')
+        try:
+            cfile = du.write_constants(os.path.join(work, 'c.json'), npts=(8, 8, 8, 8), dt=2)
+            for nranks in (1, 2):
+                st = du.run_driver(nranks, work, 4, 'run%d' % nranks, cfile, 5)
+                if st[0] != 'ok':
+                    return {'signature': 'C04:driver-loop', 'what': 'the real driver loop fails: ' + st[1][:300],
+                            'case': {'driver': 'fullSimulation.main', 'nranks': nranks, 'tEnd': 4, 'npts': [8, 8, 8, 8]}}
+        finally:
+            shutil.rmtree(work, ignore_errors=True)
+        return None
+    return chk.finish(search)
